@@ -248,7 +248,10 @@ def memoless_outcome(chain, op, fname, budget):
     env = U.Env('ref', allow_nest=False)
     with U.isolated_registry():
         try:
-            mods = U.build_chain_fast(chain)
+            if chain == ('<builtin meta>',):
+                mods = [U.builtin_module('meta')]
+            else:
+                mods = U.build_chain_fast(chain)
         except Exception as e:
             return ['ref-compile', type(e).__name__]
 
@@ -399,8 +402,52 @@ def family(r, named):
     return s, g, texts, kind, long_texts
 
 
+class MetaInfo:
+    """The shipped meta-parser (sourcer/parser.py) as a member of the C07 workload: it carries its own
+    copy of the driver; its inputs are grammar descriptions."""
+    id = 0
+    name = None
+    extends = None
+    parent = None
+    desc = None
+    chain = ('<builtin meta>',)
+    builtin = 'meta'
+    own = []
+    gaps = []
+    alphabet = list('ab=|()" \n')
+    want_long = False
+    long_texts = []
+
+    def __init__(self, r):
+        import sourcer.parser as P
+        texts = []
+        for _ in range(4):
+            s, g = spec.gen_root(r, r.random() < 0.5, n_rules=r.randint(2, 4), hook_p=0.3)
+            d = spec.render_module(s, 'vxmeta' if s['named'] else None)
+            texts.append(d)
+            if r.random() < 0.5:
+                texts.append(spec.mutate_text(r, d, list('ab=|()" \n')))
+        self.fixed_texts = texts
+        self.texts = texts
+        self.rules = {}
+        self.super_rules = {}
+        self.start = None
+        names = []
+        for n, f in sorted(vars(P).items()):
+            co = getattr(f, '__code__', None)
+            if n.startswith('_try_') and co is not None and co.co_argcount == 2 and (co.co_flags & 0x20) \
+                    and not n.startswith('_try__'):
+                names.append(n[len('_try_'):])
+        self.rule_names = names
+
+    def plan_entry(self):
+        return {'id': 0, 'name': None, 'extends': None, 'desc': None, 'builtin': 'meta', 'rules': self.rule_names}
+
+
 def gen_universe(r):
     infos = []
+    if r.random() < 0.08:
+        return [MetaInfo(r)]
     named0 = r.random() < 0.6
     fam_texts = None
     long_texts = []
@@ -485,6 +532,8 @@ def execute(plan, schedule=None, refs=None):
         env.count('probe_firings', c['probe_firings'])
         if c['served'] > 0:
             env.count('calls_nontrivial')
+        if chains.get(op['mod']) == ('<builtin meta>',):
+            env.count('calls_on_shipped_meta_parser')
         if len(op['text']) >= 300:
             env.count('long_calls')
         bound = len(rec.rule_codes) * (len(op['text']) + 1)
@@ -501,7 +550,7 @@ def execute(plan, schedule=None, refs=None):
                 env.count('result_identity_checked')
         # semantic transparency of the memo: the same call under a memo-less driver
         if (not op.get('script') and c.get('root_final') is not None and memoless_done < 3
-                and c.get('root_name') and len(op['text']) <= 40):
+                and c.get('root_name') and (len(op['text']) <= 40 or chains.get(op['mod']) == ('<builtin meta>',))):
             memoless_done += 1
             chain = chains.get(op['mod'])
             m = memoless_outcome(chain, op, c['root_name'], 40 * r['steps'] + 20_000)
@@ -572,6 +621,10 @@ class Planner(C.Planner):
         return best[1]
 
     def gen_parse(self, mid, kinds, depth=0):
+        if getattr(self.infos[mid], 'builtin', None):
+            t = self.wr.choice(self.infos[mid].texts)
+            return {'op': 'parse', 'mod': mid, 'entry': 'parse', 'text': t, 'pos': 0, 'full': True,
+                    'budget': U.HARD_CAP, '_steps': 200_000}
         if depth == 0 and self.wr.random() < LONG_P:
             t = self.long_text(mid)
             if t is not None:
@@ -718,6 +771,7 @@ def coverage(agg):
         'memoless_model_compared': c.get('memoless_compared', 0),
         'calls_skipped_left_recursive_grammar': c.get('calls_skipped_left_recursive_grammar', 0),
         'long_input_calls(>=300 chars)': c.get('long_calls', 0),
+        'calls_on_shipped_meta_parser': c.get('calls_on_shipped_meta_parser', 0),
         'memoless_model_budget_exceeded(exponential_families)': c.get('memoless_budget_exceeded', 0),
         'faults_fired_by_kind': {k: c.get(k, 0) for k in ('preempt', 'user_abort', 'reenter', 'gc')},
         'configurations': {'S0_single_call_baseline_runs': agg['baseline_runs'], 'S0_calls': agg['baseline_calls'],
